@@ -684,3 +684,54 @@ UNITS += [
 META["trusted_base"] = list(META.get("trusted_base", [])) + [
     "specs/C12/sizes.c: rtcfg_get_stack_size (in sizes.tm.ctor_fragment: the contract proved by sizes.rtcfg.get_stack_size, as an array read), "
     "tqip_make (the constructor's parameter order as proved by sizes.tqip.ctor), get_self_stacksize_enum (returns the calling task's class)"]
+
+
+# ---- thread_init_data travels by value through the staged-task queues (added by main after seeded change C12-8 was missed) ----------------
+TID_HPP = "libs/pika/threading_base/include/pika/threading_base/thread_init_data.hpp"
+_TID_MEMBERS = ["func", "priority", "schedulehint", "stacksize", "initial_state", "run_now", "scheduler_base"]
+_TID_RULES = [
+    Sub(r"std::move\(rhs\.func\)", "fn_move(&rhs->func)", None),
+    Sub(r"\brhs\.", "rhs->", None),
+    Sub(r"return \*this;", "return self;", None),
+    Members(_TID_MEMBERS, optional=_TID_MEMBERS),
+    Sub(r"\brhs->self->", "rhs->", None),
+]
+
+
+class _TidCtor(Lift):
+    """move constructor of thread_init_data: the mem-initialiser list (preprocessor conditionals resolved with the build's
+    configuration first) becomes `self->m = (init);` statements in front of the body"""
+
+    def run(self):
+        from vx.lift import locate as _loc, match_close as _mc, split_args as _sa, resolve_pp as _rp, apply_rules as _ar, GENERIC_RULES as _GR
+        body, line, header = _loc(self.src, self.locate, self.which, self.expect, ctor=True)
+        header = _rp(header)
+        op = header.index("(")
+        rest = header[_mc(header, op) + 1:].strip()
+        rest = re.sub(r"^noexcept\s*", "", rest)
+        if not rest.startswith(":"):
+            raise LiftError("no mem-initialiser list")
+        st = []
+        for item in _sa(rest[1:]):
+            m = re.match(r"\s*(\w+)\s*[({](.*)[)}]\s*$", item, re.S)
+            if not m:
+                raise LiftError("cannot parse initialiser %r" % item)
+            st.append("%s = %s;" % (m.group(1), m.group(2).strip()))
+        text = "{ " + " ".join(st) + " " + _rp(body).strip()[1:]
+        text = _ar(_ar(text, self.rules), _GR)
+        return {"text": text, "line": line, "file": self.src, "raw": header + body, "nloops": 0, "header": header}
+
+
+UNITS += [
+    Unit("initdata.move_assign", "initdata.c", defines=["U_MOVE_ASSIGN"], enforce="tid_move_assign",
+         lifts={"body": Lift(TID_HPP, r"thread_init_data& operator=\(thread_init_data&& rhs\) noexcept", rules=_TID_RULES)},
+         funcs=[TID_HPP + ": thread_init_data::operator=(thread_init_data&&)"], min_obligations=5,
+         doc="F: every member (the stack-size class in particular) arrives unchanged; the path of staged tasks of thread_queue_mc"),
+    Unit("initdata.move_ctor", "initdata.c", defines=["U_MOVE_CTOR"], enforce="tid_move_ctor",
+         lifts={"body": _TidCtor(TID_HPP, r"thread_init_data\(thread_init_data&& rhs\) noexcept", rules=_TID_RULES)},
+         funcs=[TID_HPP + ": thread_init_data::thread_init_data(thread_init_data&&)"], min_obligations=5,
+         doc="F: every member arrives unchanged; the path of staged tasks of thread_queue"),
+]
+META["not_decided"] = list(META.get("not_decided", [])) + [
+    "thread_init_data: members that exist only with PIKA_HAVE_THREAD_DESCRIPTION / _PARENT_REFERENCE / APEX (off in the shipped configuration); "
+    "that the member list of the C model is complete is by inspection (7 data members)"]
